@@ -10,7 +10,7 @@ Inductive wf_dval : dval -> Prop :=
 | wf_list : forall l, N.of_nat (List.length l) <= listValueMaxSize -> Forall wf_dval l -> wf_dval (DList l)
 | wf_raw  : forall b, N.of_nat (List.length b) <= rawValueMaxSize -> wf_dval (DRaw b)
 | wf_void : wf_dval DVoid
-| wf_opq  : forall t v, good_ty t = true -> lookup (print t) dispatch_table = DOther -> print t <> "o"%string ->
+| wf_opq  : forall t v, wf_ty t = true -> lookup (print t) dispatch_table = DOther -> print t <> "o"%string ->
             N.of_nat (String.length (print t)) <= MaxStringSize -> has_ty v t = true ->
             wf_dval (DOpaque (bytes_of_string (print t)) (spec_enc v)).
 
@@ -22,7 +22,7 @@ Lemma wf_dval_inv : forall v, wf_dval v ->
   | DRaw b => N.of_nat (List.length b) <= rawValueMaxSize
   | DVoid => True
   | DOpaque sg d => exists t v0, sg = bytes_of_string (print t) /\ d = spec_enc v0 /\
-      good_ty t = true /\ lookup (print t) dispatch_table = DOther /\ print t <> "o"%string /\
+      wf_ty t = true /\ lookup (print t) dispatch_table = DOther /\ print t <> "o"%string /\
       N.of_nat (String.length (print t)) <= MaxStringSize /\ has_ty v0 t = true
   end.
 Proof.
@@ -130,10 +130,11 @@ Section P.
     rewrite read_num_le by (change (2 ^ (8 * N.of_nat 4)) with 4294967296; lia). cbn [bind].
     replace (listValueMaxSize <? N.of_nat (List.length l)) with false
       by (symmetry; apply N.ltb_ge; unfold listValueMaxSize; lia).
-    rewrite (rep_exact enc_dval (dec_dval parse c (S f)) l _ eq_refl); [reflexivity|].
-    rewrite Forall_forall in IH, Hall |- *. intros x Hx. split.
-    - apply (IH x Hx (Hall x Hx)). pose proof (ddepth_In l x Hx) as Hd. lia.
-    - pose proof (enc_dval_length_ge x) as Hge. lia.
+    rewrite (rep_exact enc_dval (dec_dval parse c (S f)) l _ eq_refl); [reflexivity| |].
+    - rewrite Forall_forall in IH, Hall |- *. intros x Hx.
+      apply (IH x Hx (Hall x Hx)). pose proof (ddepth_In l x Hx) as Hd. lia.
+    - left. apply (proj2 (Forall_map enc_dval (fun e => (1 <= List.length e)%nat) l)).
+      apply Forall_forall. intros x _. pose proof (enc_dval_length_ge x) as Hge. cbv beta. lia.
   Qed.
 
   Lemma dval_exact_opq : value_reader_no_len c = false -> forall sg d, dval_exact (DOpaque sg d).
@@ -144,7 +145,7 @@ Section P.
     rewrite read_str_enc by (rewrite length_bytes_of_string; exact Hlen). cbn [bind].
     rewrite string_of_bytes_of_string, Hlook. cbv iota.
     apply String.eqb_neq in Hno. rewrite Hno. cbv zeta.
-    rewrite string_of_bytes_of_string, (parse_print t (good_ty_wf t Hg)).
+    rewrite string_of_bytes_of_string, (parse_print t Hg).
     rewrite (sig_read_spec parse parse_print c v0 t); [reflexivity|exact Hvr|exact Hg|exact Hty|].
     pose proof (dyn_depth_le_len v0 t Hty) as Hd. rewrite app_length. lia.
   Qed.
